@@ -594,3 +594,144 @@ pub fn render_tokens_sep(
     layouts.push(trail);
     Rendered { text, spans, layouts }
 }
+
+// ---------------------------------------------------------------------------------------
+// G-ops: grammars with conflicts and disambiguation meta-data
+
+pub const PRIOS: [u32; 5] = [5, 8, 10, 12, 15];
+pub const ASSOCS: [AssocKw; 4] = [AssocKw::Left, AssocKw::Reduce, AssocKw::Right, AssocKw::Shift];
+
+/// Sprinkle random meta-data over a spec (pure function of the tape).
+/// Associativity is given either on the rule or on its productions, never both with different
+/// data (that combination is C09's subject and is counted as excluded by construction).
+pub fn sprinkle_meta(spec: &mut GrammarSpec, tape: &mut Cursor, term_assoc: bool) {
+    for r in spec.rules.iter_mut() {
+        let rule_level = tape.pick(8) == 0;
+        if rule_level {
+            match tape.pick(3) {
+                0 => r.meta.prio = Some(PRIOS[tape.pick(PRIOS.len())]),
+                1 => r.meta.assoc = Some(ASSOCS[tape.pick(ASSOCS.len())]),
+                _ => r.meta.nops = true,
+            }
+        }
+        let rule_has_assoc = r.meta.assoc.is_some();
+        for a in r.alts.iter_mut() {
+            if tape.pick(3) == 0 {
+                a.meta.prio = Some(PRIOS[tape.pick(PRIOS.len())]);
+            }
+            if !rule_has_assoc && tape.pick(3) == 0 {
+                a.meta.assoc = Some(ASSOCS[tape.pick(ASSOCS.len())]);
+            }
+            if tape.pick(10) == 0 {
+                a.meta.nops = true;
+            }
+            if tape.pick(10) == 0 {
+                a.meta.nopse = true;
+            }
+        }
+    }
+    if term_assoc {
+        for t in spec.terms.iter_mut() {
+            if tape.pick(5) == 0 {
+                t.assoc = ASSOCS[tape.pick(ASSOCS.len())];
+            }
+        }
+    }
+}
+
+/// Effective (inherited) production data by the documented rule: the production's own datum
+/// wins, otherwise the rule's, otherwise the default.
+#[derive(Clone, Copy, Debug, PartialEq, Eq)]
+pub struct EffMeta {
+    pub prio: u32,
+    pub assoc: i8,
+    pub nops: bool,
+    pub nopse: bool,
+}
+
+pub fn eff_meta(r: &RuleSpec, a: &AltSpec) -> EffMeta {
+    EffMeta {
+        prio: a.meta.prio.or(r.meta.prio).unwrap_or(10),
+        assoc: a.meta.assoc.or(r.meta.assoc).map(|k| k.datum()).unwrap_or(0),
+        nops: a.meta.nops || r.meta.nops,
+        nopse: a.meta.nopse || r.meta.nopse,
+    }
+}
+
+#[derive(Clone, Debug, Serialize, Deserialize, PartialEq)]
+pub struct OpLevel {
+    pub ops: Vec<usize>, // indices into the operator pool
+    pub right: bool,
+    pub prio: u32,
+}
+
+pub const OP_POOL: [(&str, &str); 6] =
+    [("Plus", "+"), ("Minus", "-"), ("Star", "*"), ("Eq", "="), ("Lt", "<"), ("Bang", "!")];
+
+/// Expression grammar `E: E op E {prio, assoc} ... | '(' E ')' | Num` from a precedence table.
+/// `on_terms`: associativity is given on the operator terminals instead of the productions.
+/// `kw_alt`: use reduce/shift keywords instead of left/right.
+pub fn expr_spec(levels: &[OpLevel], on_terms: bool, kw_alt: bool) -> GrammarSpec {
+    let mut terms: Vec<TermSpec> = vec![];
+    let mut alts: Vec<AltSpec> = vec![];
+    for l in levels {
+        for o in &l.ops {
+            let (n, s) = OP_POOL[*o];
+            let kw = match (l.right, kw_alt) {
+                (false, false) => AssocKw::Left,
+                (false, true) => AssocKw::Reduce,
+                (true, false) => AssocKw::Right,
+                (true, true) => AssocKw::Shift,
+            };
+            let mut t = TermSpec::str(n, s);
+            if on_terms {
+                t.assoc = kw;
+            }
+            terms.push(t);
+            let ti = terms.len() - 1;
+            let mut a = AltSpec::of(vec![Sym::N(0), Sym::T(ti), Sym::N(0)]);
+            a.meta.prio = Some(l.prio);
+            if !on_terms {
+                a.meta.assoc = Some(kw);
+            }
+            alts.push(a);
+        }
+    }
+    terms.push(TermSpec::str("LPar", "("));
+    let lp = terms.len() - 1;
+    terms.push(TermSpec::str("RPar", ")"));
+    let rp = terms.len() - 1;
+    terms.push(TermSpec::regex("Num", "\\d+", &["1", "23", "4"]));
+    let num = terms.len() - 1;
+    alts.push(AltSpec::of(vec![Sym::T(lp), Sym::N(0), Sym::T(rp)]));
+    alts.push(AltSpec::of(vec![Sym::T(num)]));
+    GrammarSpec {
+        terms,
+        rules: vec![RuleSpec { name: "E".into(), annotation: None, meta: Meta::default(), alts }],
+        layout: None,
+    }
+}
+
+pub fn op_levels() -> impl Strategy<Value = Vec<OpLevel>> {
+    // a random partition of a random subset of the operator pool into 1..4 levels with
+    // distinct priorities
+    (
+        proptest::collection::vec((any::<bool>(), 0u8..4), OP_POOL.len()),
+        proptest::collection::vec(any::<bool>(), 4),
+        proptest::sample::subsequence(vec![3u32, 6, 9, 10, 11, 14, 20], 4),
+    )
+        .prop_map(|(assign, rights, prios)| {
+            let mut levels: Vec<OpLevel> =
+                (0..4).map(|i| OpLevel { ops: vec![], right: rights[i], prio: prios[i] }).collect();
+            for (o, (used, lvl)) in assign.iter().enumerate() {
+                if *used {
+                    levels[*lvl as usize].ops.push(o);
+                }
+            }
+            levels.retain(|l| !l.ops.is_empty());
+            if levels.is_empty() {
+                levels.push(OpLevel { ops: vec![0], right: false, prio: 10 });
+            }
+            levels
+        })
+}
